@@ -289,6 +289,24 @@ func (ws *writeScanner) scanIns(ins ssa.Instruction, inScope func(ssa.Instructio
 				keys["E:"+typeKey(types.NewSlice(types.Typ[types.Uint8]))] = true
 			}
 			return
+		case name == "sort.Slice" || name == "sort.SliceStable" || name == "sort.Sort" || name == "sort.Stable" || name == "sort.Strings" || name == "sort.Ints":
+			// permutes the elements of its argument
+			if mi, ok := cc.Args[0].(*ssa.MakeInterface); ok {
+				if st, ok := under(mi.X.Type()).(*types.Slice); ok {
+					if !ws.isFreshRoot(mi.X, inScope, paramFresh, 0) {
+						keys["E:"+typeKey(types.NewSlice(st.Elem()))] = true
+					}
+					return
+				}
+			}
+			if st, ok := under(cc.Args[0].Type()).(*types.Slice); ok {
+				if !ws.isFreshRoot(cc.Args[0], inScope, paramFresh, 0) {
+					keys["E:"+typeKey(types.NewSlice(st.Elem()))] = true
+				}
+				return
+			}
+			keys["*"] = true
+			return
 		case strings.HasPrefix(name, "(*bytes.Buffer).Write"), name == "(*text/template.Template).Execute":
 			// writes the buffer object (its buf field and backing array)
 			wi := 0
@@ -429,6 +447,9 @@ var reArrayKey = regexp.MustCompile(`^\[\d+\]`)
 
 func (e *Engine) inModSet(keys map[string]bool, compKey string) bool {
 	for k := range keys {
+		if k == "*" {
+			return true
+		}
 		if (k[:2] == "T:" || k[:2] == "C:") && reArrayKey.MatchString(k[2:]) {
 			// array objects keep their elements in the component of slice elements
 			if strings.HasPrefix(compKey, reArrayKey.ReplaceAllString(k[2:], "[]")+"[") {
@@ -615,7 +636,12 @@ func (e *Engine) enterLoop(fr *frame, li *loopInfo, reach string, heap Heap, con
 		et := pv.Type().(*types.Pointer).Elem()
 		saveG := e.guard
 		e.guard = reach
-		e.store(h, e.asPtr(addr, pv.Type()), et, e.freshVal(et, "loopcell"))
+		fv := e.freshVal(et, "loopcell")
+		if sv, ok := fv.(SliceVal); ok && cellOffZero(pv) {
+			// every value ever stored in this slice variable starts at offset 0 of its backing array
+			fv = SliceVal{sv.Arr, bvLit(0, 64), sv.Len}
+		}
+		e.store(h, e.asPtr(addr, pv.Type()), et, fv)
 		e.guard = saveG
 	}
 	// fields written through loop-invariant pointers: havoc that field of that object only
@@ -857,6 +883,45 @@ func (e *Engine) assumeBelow(v Val, t types.Type, base string) {
 
 // sliceOffZero: every value that can flow into v is a slice that starts at offset
 // 0 of its backing array (nil, make, append results, or a phi of such).
+// cellOffZero: pv is a local variable cell (Alloc) of slice type and every store to it,
+// in its function and in the closures capturing it, stores a value at offset 0.
+func cellOffZero(pv ssa.Value) bool {
+	al, ok := pv.(*ssa.Alloc)
+	if !ok || al.Referrers() == nil {
+		return false
+	}
+	var okCell func(cell ssa.Value, refs []ssa.Instruction) bool
+	okCell = func(cell ssa.Value, refs []ssa.Instruction) bool {
+		for _, r := range refs {
+			switch x := r.(type) {
+			case *ssa.Store:
+				if x.Addr == cell {
+					if !sliceOffZero(x.Val, map[ssa.Value]bool{}) {
+						return false
+					}
+				} else {
+					return false // the address itself is stored somewhere
+				}
+			case *ssa.UnOp, *ssa.DebugRef:
+			case *ssa.MakeClosure:
+				fn := x.Fn.(*ssa.Function)
+				for i, b := range x.Bindings {
+					if b == cell {
+						fvr := fn.FreeVars[i]
+						if fvr.Referrers() != nil && !okCell(fvr, *fvr.Referrers()) {
+							return false
+						}
+					}
+				}
+			default:
+				return false
+			}
+		}
+		return true
+	}
+	return okCell(al, *al.Referrers())
+}
+
 func sliceOffZero(v ssa.Value, seen map[ssa.Value]bool) bool {
 	if seen[v] {
 		return true
@@ -870,6 +935,11 @@ func sliceOffZero(v ssa.Value, seen map[ssa.Value]bool) bool {
 	case *ssa.Call:
 		if b, ok := x.Call.Value.(*ssa.Builtin); ok && b.Name() == "append" {
 			return true
+		}
+	case *ssa.UnOp:
+		// a load of a slice variable all of whose stores are at offset 0
+		if x.Op == token.MUL {
+			return cellOffZero(x.X)
 		}
 	case *ssa.Phi:
 		for _, e := range x.Edges {
